@@ -226,8 +226,8 @@ theorem KeysNodup.regAll {m : Own} (h : KeysNodup m) (cs : List (Pid × Res)) : 
 
 /-- A property of the environment that every cleanup preserves is preserved by
 `handle_process_results`. -/
-theorem handleProcessResults_induct {P : Env → Prop} (hc : ∀ s p, P s → P (cleanupProcessResources s p))
-    (s : Env) (rs : List (Pid × Bool)) (h : P s) : P (handleProcessResults s rs) := by
+theorem handleCleanups_induct {P : Env → Prop} (hc : ∀ s p, P s → P (cleanupProcessResources s p))
+    (s : Env) (rs : List (Pid × Bool)) (h : P s) : P (handleCleanups s rs) := by
   induction rs generalizing s with
   | nil => exact h
   | cons x rest ih =>
